@@ -152,3 +152,6 @@ def kn_axioms(vs):
         out.append(z3.Implies(is_bool(v), kn(v) == vint(z3.If(b_of(v), 1, 0))))
         out.append(z3.Implies(is_ref(v), is_ref(kn(v))))
     return out
+
+
+ID_OF = z3.Function("id_of", Val, I)          # id(x)
